@@ -96,6 +96,30 @@ pub fn irq_verdicts(i: &IrqIn, o: &IrqOut) -> [bool; 11] {
   }
   v
 }
+// reference parsers for the debugger's address syntax (C20), shared by the harnesses and the native replay
+pub fn spec_hex(b: &[u8]) -> Option<u16> {
+    if b.len() == 0 { return None; }
+    let mut v: u32 = 0; let mut i = 0;
+    while i < b.len() {
+      let c = b[i];
+      let d = if c >= b'0' && c <= b'9' { c - b'0' } else if c >= b'a' && c <= b'f' { c - b'a' + 10 } else if c >= b'A' && c <= b'F' { c - b'A' + 10 } else { return None; };
+      v = v * 16 + d as u32; if v > 0xffff { return None; }
+      i += 1;
+    }
+    Some(v as u16)
+  }
+pub fn spec_dec(b: &[u8]) -> Option<u16> {
+    if b.len() == 0 { return None; }
+    let mut v: u32 = 0; let mut i = 0;
+    while i < b.len() {
+      let c = b[i];
+      if !(c >= b'0' && c <= b'9') { return None; }
+      v = v * 10 + (c - b'0') as u32; if v > 0xffff { return None; }
+      i += 1;
+    }
+    Some(v as u16)
+  }
+
 #[cfg(all(kani, feature = "h_misc"))]
 pub mod harnesses {
   use std::io::{self, Write};
@@ -109,6 +133,17 @@ pub mod harnesses {
     Ok(buf.len())
   }
   fn stub_flush(_s: &mut io::Stdout) -> io::Result<()> { unsafe { NFLUSH += 1; } Ok(()) }
+  static mut NFMT: usize = 0;
+  /// Text formatting on the host stream: a literal without arguments is recorded byte for byte; anything formatted at run time
+  /// is only counted (core::fmt is out of CBMC's reach). Formatted text is UTF-8, so it cannot be a raw data byte >= 0x80;
+  /// whether the real code then emits the wrong bytes is decided by the native replay (replay-serial), not by this stub.
+  fn stub_write_fmt(_s: &mut io::Stdout, args: core::fmt::Arguments<'_>) -> io::Result<()> {
+    match args.as_str() {
+      Some(lit) => { let b = lit.as_bytes(); unsafe { let mut i = 0; while i < 4 { if i < b.len() && NOUT + i < 4 { OUT[NOUT + i] = b[i]; } i += 1; } NOUT += b.len(); } },
+      None => unsafe { NFMT += 1; },
+    }
+    Ok(())
+  }
   /// io::stdout() itself (OnceLock + reentrant mutex) is irrelevant to the property and very expensive for CBMC: the
   /// handle is never dereferenced once write/flush are stubbed, so a dummy handle stands in for it.
   fn stub_stdout() -> io::Stdout { unsafe { core::mem::transmute::<usize, io::Stdout>(0x1000) } }
@@ -117,6 +152,7 @@ pub mod harnesses {
   #[kani::stub(<std::io::Stdout as std::io::Write>::write, stub_write)]
   #[kani::stub(<std::io::Stdout as std::io::Write>::flush, stub_flush)]
   #[kani::stub(std::io::stdout, stub_stdout)]
+  #[kani::stub(<std::io::Stdout as std::io::Write>::write_fmt, stub_write_fmt)]
   fn serial_set_control() {
     let mut s = crate::devices::serial::SerialComms::new();
     let d0: u8 = kani::any(); let c0: u8 = kani::any();
@@ -136,6 +172,7 @@ pub mod harnesses {
       1 => assert!(after_data == emitted_before, "C18: a data write emits nothing"),
       2 => assert!(if v & 0x80 != 0 { n == 1 && first == d } else { n == 0 }, "C18: bit 7 set emits exactly the latched byte, bit 7 clear emits nothing"),
       3 => assert!(s.get_control() == v && s.get_data() == d, "C18: SC/SB hold the written values"),
+      4 => assert!(unsafe { NFMT } == 0 || d < 0x80, "C18: the data byte is not routed through run-time text formatting (UTF-8 cannot carry a raw byte >= 0x80)"),
       _ => { kani::cover!(true, "reachable"); },
     }
   }
@@ -212,28 +249,7 @@ pub mod harnesses {
   }
 
   // ------------------------------------------------------------------ C20: debugger strings (BOUNDED by input length)
-  fn spec_hex(b: &[u8]) -> Option<u16> {
-    if b.len() == 0 { return None; }
-    let mut v: u32 = 0; let mut i = 0;
-    while i < b.len() {
-      let c = b[i];
-      let d = if c >= b'0' && c <= b'9' { c - b'0' } else if c >= b'a' && c <= b'f' { c - b'a' + 10 } else if c >= b'A' && c <= b'F' { c - b'A' + 10 } else { return None; };
-      v = v * 16 + d as u32; if v > 0xffff { return None; }
-      i += 1;
-    }
-    Some(v as u16)
-  }
-  fn spec_dec(b: &[u8]) -> Option<u16> {
-    if b.len() == 0 { return None; }
-    let mut v: u32 = 0; let mut i = 0;
-    while i < b.len() {
-      let c = b[i];
-      if !(c >= b'0' && c <= b'9') { return None; }
-      v = v * 10 + (c - b'0') as u32; if v > 0xffff { return None; }
-      i += 1;
-    }
-    Some(v as u16)
-  }
+  use super::{spec_hex, spec_dec};
   const NHEX: usize = 6;
   #[kani::proof] #[kani::unwind(9)]
   fn strs_parse_address_hex() {
@@ -258,6 +274,22 @@ pub mod harnesses {
     let s = match core::str::from_utf8(&bytes[..len]) { Ok(s) => s, Err(_) => return };
     let r = crate::debug::command::parse_address(s);
     assert!(r == spec_dec(&bytes[..len]), "C20: decimal parses to exactly its value, malformed / out of range rejected");
+  }
+
+  /// totality over arbitrary (also non-ASCII) tokens: any well-formed UTF-8 string of at most NUNI bytes gets an answer
+  const NUNI: usize = 5;
+  #[kani::proof] #[kani::unwind(8)]
+  fn strs_parse_address_unicode() {
+    let bytes: [u8; NUNI] = kani::any();
+    let len: usize = kani::any();
+    kani::assume(len <= NUNI);
+    let s = match core::str::from_utf8(&bytes[..len]) { Ok(s) => s, Err(_) => return };
+    let r = crate::debug::command::parse_address(s);
+    // a token with a non-ASCII, non-whitespace character is malformed
+    let mut odd = false; let mut k = 0;
+    while k < NUNI { if k < len && bytes[k] >= 0x80 { odd = true; } k += 1; }
+    kani::cover!(odd, "reachable: non-ASCII token");
+    kani::cover!(r.is_some(), "reachable: some token parses");
   }
 
   // ------------------------------------------------------------------ C07: Core::handle_interrupt (loop-free twin of the Verus contract)
